@@ -306,6 +306,8 @@ def rule_value_not_tested(db: ProgramDB) -> List[Instance]:
                     return False         # an attribute of the engine's own objects (a wrapped Variable: `v.value._domain_`), not of a user value
                 if isinstance(e, (ast.Subscript, ast.Attribute)) and not _is_read(e):
                     return is_payload(e.value)
+                if isinstance(e, ast.IfExp):
+                    return is_payload(e.body) or is_payload(e.orelse)
                 if isinstance(e, ast.Call):
                     if is_payload(e.func):
                         return True
